@@ -160,8 +160,11 @@ def exec_block(ctx, stmts, env, cond):
                 outs.append(Outcome("raise", T.land(cond, rc), rv, env, st))
                 rcs.append(rc)
             del pend[:]
-            stay = T.land(*[T.lnot(rc) for rc in rcs])
-            r = [Outcome(o.kind, T.land(o.cond, stay), o.value, o.env, o.node) if o.kind == "fall" else o for o in r]
+            stay = fold_bool(T.land(*[T.lnot(rc) for rc in rcs]))
+            if stay == ("bool", False):
+                r = []                    # the helper raises unconditionally: nothing of this statement survives
+            else:
+                r = [Outcome(o.kind, T.land(o.cond, stay), o.value, o.env, o.node) for o in r]
         fall = None
         for o in r:
             if o.kind == "fall":
@@ -251,6 +254,19 @@ def exec_stmt(ctx, st, env, cond):
         if isinstance(v, ast.Constant):
             return [Outcome("fall", cond, None, env)]
         env = dict(env)
+        if isinstance(v, ast.Call) and isinstance(v.func, ast.Attribute) and isinstance(v.func.value, ast.Attribute) \
+                and isinstance(v.func.value.value, ast.Name) and v.func.value.value.id == "self":
+            # self.<field>.append(x) / .extend(seq) on a field that currently holds a literal list
+            key_, meth_ = "self." + v.func.value.attr, v.func.attr
+            cur_ = env.get(key_)
+            if cur_ is not None and cur_[0] == "list" and meth_ in ("append", "extend") and len(v.args) == 1:
+                a_ = ev(ctx, v.args[0], env)
+                if meth_ == "append":
+                    env[key_] = cur_ + (a_,)
+                    return [Outcome("fall", cond, None, env)]
+                if a_[0] in ("list", "tuple"):
+                    env[key_] = cur_ + tuple(a_[1:])
+                    return [Outcome("fall", cond, None, env)]
         if isinstance(v, ast.Call) and isinstance(v.func, ast.Attribute) and isinstance(v.func.value, ast.Name):
             recv, meth = v.func.value.id, v.func.attr
             if meth in MUTATORS and recv in env:
@@ -290,6 +306,10 @@ def exec_stmt(ctx, st, env, cond):
     if isinstance(st, ast.With):
         return exec_block(ctx, st.body, env, cond)
     raise AnalysisError("symx: unsupported statement %s" % type(st).__name__)
+
+
+KNOWN_TYPE_NAMES = {"int", "float", "str", "bool", "list", "tuple", "dict", "complex", "Angle", "Epoch", "Interpolation", "CurveFitting",
+                    "Ellipsoid", "Earth", "Minor", "date", "datetime"}
 
 
 def fold_bool(c):
@@ -334,7 +354,7 @@ def fold_bool(c):
         # convention: a symbol named NUM_* stands for an int/float argument
         tys = c[3][1:] if c[3][0] == "tuple" else (c[3],)
         names = [x[1].split(".")[-1] for x in tys if x[0] == "sym"]
-        if len(names) == len(tys):
+        if len(names) == len(tys) and all(n in KNOWN_TYPE_NAMES for n in names):
             return ("bool", "int" in names or "float" in names)
     if h == "call" and c[1] == "isinstance" and len(c) == 4 and c[2][0] == "pyobj":
         # ('pyobj', 'datetime.datetime', id): an instance of a named stdlib class
@@ -352,13 +372,13 @@ def fold_bool(c):
     if h == "call" and c[1] == "isinstance" and len(c) == 4 and c[2][0] in ("tuple", "list", "str"):
         tys = c[3][1:] if c[3][0] == "tuple" else (c[3],)
         names = [x[1].split(".")[-1] for x in tys if x[0] == "sym"]
-        if len(names) == len(tys):
+        if len(names) == len(tys) and all(n in KNOWN_TYPE_NAMES for n in names):
             return ("bool", c[2][0] in names)
     if h == "call" and c[1] == "isinstance" and len(c) == 4 and c[2][0] in ("angle", "epoch"):
         kind = {"angle": "Angle", "epoch": "Epoch"}[c[2][0]]
         tys = c[3][1:] if c[3][0] == "tuple" else (c[3],)
         names = [x[1].split(".")[-1] for x in tys if x[0] == "sym"]
-        if len(names) == len(tys):
+        if len(names) == len(tys) and all(n in KNOWN_TYPE_NAMES for n in names):
             return ("bool", kind in names)
     return c
 
@@ -800,8 +820,8 @@ def global_value(ctx, modname, name, gnode):
         try:
             sub = Ctx(ctx.repo, modname)
             v = ev(sub, gnode, {})
-            if all(x[0] in ("num", "tuple", "list", "str") for x in v[1:]):
-                return v                   # a small literal sequence introduced by a refactoring
+            if all(x[0] in ("num", "tuple", "list", "str", "sym") for x in v[1:]):
+                return v                   # a small literal sequence introduced by a refactoring (numbers, strings, type names)
         except AnalysisError:
             pass
     if isinstance(gnode, ast.Dict) and len(gnode.keys) <= 64 and all(isinstance(k, ast.Constant) for k in gnode.keys) \
@@ -1010,6 +1030,11 @@ def ev_call(ctx, node, env):
             if meth == "get_ra":
                 return T.div(T.call("red", recv[1]), T.num(15))
             return T.call("Angle.Angle." + meth, recv, *args)
+        if recv[0] in ("epoch", "angle") and ctx.inline_depth > 0:
+            tgt_ = ("Epoch.Epoch." if recv[0] == "epoch" else "Angle.Angle.") + meth
+            fn_ = new_helper(ctx, tgt_)
+            if fn_ is not None:                 # a method introduced by a refactoring, called on a typed receiver
+                return inline_repo(ctx, tgt_, fn_, [recv] + args, kws, star_kw, env)
         if recv[0] == "epoch":
             if meth in ("jde",):
                 return recv[1]
